@@ -1303,6 +1303,11 @@ impl Control {
 fn stats_par_stress(rt: &tokio::runtime::Runtime, links: usize, millis: u64) -> Result<u64, String> {
     use std::sync::Arc;
     use std::sync::atomic::{AtomicBool, AtomicU64, Ordering};
+    // one wedge per process is enough: every further one would cost another 10 s of watchdog
+    static WEDGED: AtomicBool = AtomicBool::new(false);
+    if WEDGED.load(Ordering::Acquire) {
+        return Ok(0);
+    }
     let conns = rt.block_on(srtla_core::test_helpers::create_test_connections(links));
     let sh = SharedStats::new();
     sh.update(&conns, &srtla_core::ConfigSnapshot::default(), None, None);
@@ -1350,6 +1355,7 @@ fn stats_par_stress(rt: &tokio::runtime::Runtime, links: usize, millis: u64) -> 
         if last.2.elapsed() > std::time::Duration::from_secs(10) {
             // the threads are wedged: they cannot be joined; they are left behind (they hold nothing the harness needs)
             stop.store(true, Ordering::Release);
+            WEDGED.store(true, Ordering::Release);
             return Err(format!(
                 "{links} links: no get_stats request was answered and no snapshot was published for 10 s ({} answered, {} published before): a snapshot reader and the housekeeping writer block each other",
                 now.1, now.0
